@@ -52,7 +52,7 @@ def records(rng, N=None, L=None, nrec=None, wt="u", maxw=3, labels=None, ensure_
     # parallel edges between one pair, spread over several records)
     if heavy is None:
         heavy = wt in "ul" and rng.random() < 0.06
-    if heavy and recs and wt in "ul":
+    if heavy and heavy != "hub" and recs and wt in "ul":
         at = rng.randrange(len(recs))
         s0, d0, _ = recs[at]
         a0 = rng.randrange(L)
@@ -62,6 +62,23 @@ def records(rng, N=None, L=None, nrec=None, wt="u", maxw=3, labels=None, ensure_
             ws[a0] = rng.choice([400, 700, 1001, 1500])
             run.append((s0, d0, ws))
         recs[at + 1:at + 1] = run
+    if heavy == "hub" and recs and wt in "ul":
+        # a hub: one vertex with 130-400 edges in one layer made of many light records to changing targets, so that its
+        # 64th, 128th, 256th ... edge is some ordinary single edge
+        hub = rng.randrange(N)
+        a0 = rng.randrange(L)
+        left = rng.randint(130, 400)
+        run = []
+        while left > 0:
+            wgt = min(left, rng.choice([1, 1, 1, 2, 3, rng.randint(1, 60)]))
+            ws = [0] * L
+            ws[a0] = wgt
+            tgt = rng.randrange(N)
+            pair = (labels[hub], labels[tgt]) if rng.random() < 0.8 else (labels[tgt], labels[hub])
+            run.append((pair[0], pair[1], ws))
+            left -= wgt
+        at = rng.randrange(len(recs) + 1)
+        recs[at:at] = run
     if ensure_two and len({x for r in recs for x in r[:2]}) < 2:
         recs.append((labels[0], labels[1], [1] * L))
     return recs, L
